@@ -121,6 +121,13 @@ def run_case(run, drv, case_seed, tier):
             rel = base + nm
             if not any(r == rel or r.startswith(rel + "/") or rel.startswith(r + "/") for r, _ in files):
                 files.append((rel, Blob.rand(rng.randrange(1, 30), rng.choice([3, 20000, 16384]))))
+    if not single and rng.random() < 0.5:
+        # entries named like the payload root, or ending with its name (docs/docs, docs/api-docs)
+        from harness.common import Blob
+        for rel in [rng.choice(["payload/inner.txt", "my-payload/ref.html"])] + \
+                rng.sample(["d/payload/x", "payload.bak", "xpayload/payload/y"], rng.randrange(0, 3)):
+            if not any(r == rel or r.startswith(rel + "/") or rel.startswith(r + "/") for r, _ in files):
+                files.append((rel, Blob.rand(rng.randrange(1, 30), rng.choice([0, 3, 20000]))))
     iopts = {}
     if rng.random() < 0.5:
         iopts["comment"] = rng.choice(metas.WORDS)
